@@ -3,17 +3,18 @@
 # refactoring (scratch copies, 4 at a time); all must stay silent.  exit 2 if any check raises an alarm.
 set -u
 cd /verif; ./run.sh build || exit 2
+OC="${ORBCHECK_BIN:-}"; if [ -z "$OC" ]; then OC=$(mktemp /tmp/orbcheck-snap.XXXXXX); cp bin/orbcheck "$OC"; chmod 755 "$OC"; SNAP="$OC"; fi; export OC
 export GOFLAGS=-mod=mod GOPROXY=off GOSUMDB=off GOTOOLCHAIN=local; unset GOWORK
-W=$(mktemp -d /tmp/orbrefac.XXXXXX); trap 'rm -rf "$W"' EXIT
+W=$(mktemp -d /tmp/orbrefac.XXXXXX); trap 'rm -rf "$W" "${SNAP:-}"' EXIT
 one() {
   name="$1"; d="$W/$name"; mkdir -p "$d"
   (cd /repo && git ls-files -z | xargs -0 cp --parents -t "$d")
   if ! (cd "$d" && patch -p1 -s --no-backup-if-mismatch < /verif/refactors/$name/patch.diff >/dev/null 2>&1); then echo "REFAC $name: SKIP (does not apply to the current tree)"; rm -rf "$d"; return; fi
   if ! (cd "$d" && go build ./... >/dev/null 2>&1); then echo "REFAC $name: SKIP (does not compile)"; rm -rf "$d"; return; fi
   alarms=""
-  for p in $(bin/orbcheck -list); do
+  for p in $("$OC" -list); do
     [ "$p" = "DBG" ] && continue
-    out=$(bin/orbcheck -repo "$d" -verif /verif -prop $p -tier quick -no-evidence 2>&1); rc=$?
+    out=$("$OC" -repo "$d" -verif /verif -prop $p -tier quick -no-evidence 2>&1); rc=$?
     [ $rc -ne 0 ] && alarms="$alarms $p[$(echo "$out" | grep -A1 '^VIOLATION' | grep 'kind=' | head -2 | sed 's/^ *//' | cut -c1-140 | tr '\n' ';')]"
   done
   rm -rf "$d"
